@@ -79,6 +79,8 @@ SupplyCount(o) == LET gs == SelectSeq(o.out.groups, LAMBDA G : Has(G, "from_bind
                   IN Sum(1)
 C11(c, o) ==
   IF ~(HasS(c) /\ ParseOk(o)) THEN NoVerdict ELSE
+  (* a resource of a type the generator documents as unsupported (Structs!DocumentedPanic) is refused loudly whatever its numbering: outside C11 *)
+  IF o.ret.kind = "panic" /\ ST!DocumentedPanic(c.S, c.opts) THEN NoVerdict ELSE
   LET S == c.S
       res == ObsRes(S, o)
       d == Decls(S)
@@ -510,6 +512,7 @@ C10(c, o) ==
       \cup UNION { IF GlamTy(c.S, [ k |-> "struct", name |-> evs[i].struct ]) THEN EncaseFails(c.S, evs[i]) ELSE {} : i \in DOMAIN evs } ]
 
 (* ------------------------------------------------------------------ C12 *)
+WgOverride(S) == \E i \in DOMAIN S.entries : S.entries[i].stage = "compute" /\ \E w \in Range(S.entries[i].wg) : \E k \in DOMAIN S.overrides : S.overrides[k].name = w
 C12(c, o) ==
   IF HasS(c) /\ ValidAll(o) /\ RetOk(o) /\ RejectedAbout(o, "override")
   THEN [ dom |-> TRUE, fails |-> { "the module does not compile and the compiler points at the override constants [predicted=" \o ToJson(CP!PredictedCauses(c.S, c.opts)) \o "]: " \o o.compile.errors[1] } ] ELSE
@@ -518,7 +521,7 @@ C12(c, o) ==
       fs == IF Has(o.out, "overrides") THEN o.out.overrides.fields ELSE << >>
       runs == SelectSeq(RtOf(o, "overrides"), LAMBDA e : e.ev = "rt.constants")
       res == SelectSeq(RtOf(o, "overrides"), LAMBDA e : e.ev = "rt.resolve")
-      helpers == SelectSeq(RtOf(o, "entries"), LAMBDA e : e.ev \in {"rt.vertex_entry", "rt.fragment_entry"})
+      helpers == SelectSeq(RtOf(o, "entries"), LAMBDA e : e.ev \in {"rt.vertex_entry", "rt.fragment_entry", "rt.entry_again"})
   IN [ dom |-> TRUE, fails |->
       Chk([ i \in DOMAIN fs |-> [ name |-> fs[i].name, ty |-> fs[i].ty ] ] = [ i \in DOMAIN S.overrides |-> [ name |-> S.overrides[i].name, ty |-> CO!FieldType(S.overrides[i]) ] ],
           "fields of OverrideConstants are " \o ToJson([ i \in DOMAIN fs |-> [ name |-> fs[i].name, ty |-> fs[i].ty ] ]) \o " for overrides " \o ToJson([ i \in DOMAIN S.overrides |-> [ name |-> S.overrides[i].name, ty |-> CO!FieldType(S.overrides[i]) ] ]))
@@ -528,7 +531,8 @@ C12(c, o) ==
               \cup UNION { Chk(CO!MapOk(S, runs[i].assign, runs[i].map), "constants() returned " \o ToJson(runs[i].map) \o " for the assignment " \o ToJson(runs[i].assign) \o "; expected " \o ToJson(CO!ExpectedMap(S, runs[i].assign))
                                                                                \o (IF CP!ConstShadowsLocal(S) THEN " [predicted=[\"ConstShadowsLocal\"]]" ELSE "")) : i \in DOMAIN runs }
               \cup (IF Len(res) = Len(runs) THEN
-                      UNION { Chk(res[i].ok, "the shader compiler's override resolution rejects the map: " \o (IF Has(res[i], "err") THEN res[i].err ELSE ""))
+                      (* an override that gives a workgroup dimension must be positive: the probe's zero / huge values are the caller's mistake, not the map's *)
+                      UNION { Chk(res[i].ok \/ WgOverride(S), "the shader compiler's override resolution rejects the map: " \o (IF Has(res[i], "err") THEN res[i].err ELSE ""))
                               \cup (IF res[i].ok THEN Chk(CO!ResolvedOk(S, runs[i].assign, res[i].resolved), "an override did not resolve to the supplied value: " \o ToJson(res[i].resolved) \o " for " \o ToJson(runs[i].assign) \o (IF CP!ConstShadowsLocal(S) THEN " [predicted=[\"ConstShadowsLocal\"]]" ELSE "")) ELSE {})
                               : i \in DOMAIN runs }
                     ELSE {})
